@@ -303,6 +303,9 @@ def main():
     # ---- binding A (3): a resumed run continues the saved stream (Load event, clause LD_Rng)
     rj = [dict(conf=c, seed=95 + i + ck.seed, label=f"c09resume#{i}", n_total=24, save_every=2, max_ckpt=2)
           for i, c in enumerate([dict(clustering=False, random_state=4), dict(clustering=True, random_state=None)])]
+    # an odd number of normal draws per sweep: some checkpoints are written while the generator caches a second Gaussian
+    rj.append(dict(conf=dict(sample="rwm", n_dim=3, n_particles=9, clustering=False, random_state=2), seed=97 + ck.seed, label="c09resume#gauss",
+                   n_total=32, save_every=1, max_ckpt=None, vary_n_total=False))
     with cf.ProcessPoolExecutor(max_workers=sysrun.PROCS, mp_context=mp.get_context("fork")) as ex:
         rtraces = [t for ts in ex.map(sysrun.resume_job, rj) for t in ts]
     rfails, rst = psrun.validate(rtraces)
